@@ -266,8 +266,11 @@ func (t *Thread) end(args []Value, err error, exception interface{}) {
 	t.caller = nil
 	err = t.cleanupCloseStack(nil, 0, err) // TODO: not nil
 	t.closeErr = err
-	caller.sendResumeValues(args, err, exception)
-	t.ReleaseBytes(2 << 10) // The goroutine will terminate after this
+	// Release the goroutine's stack allowance before handing control back: after
+	// the hand-off the caller is running and this goroutine must not touch the
+	// runtime state any more.
+	t.ReleaseBytes(2 << 10)
+	caller.sendResumeValues(args, err, exception) // The goroutine will terminate after this
 }
 
 func (t *Thread) call(c Callable, args []Value, next Cont) error {
